@@ -22,7 +22,11 @@ REASONS = {"matched", "explicit_deny", "no_match", "action_mismatch", "resource_
 
 HOSTILE = [None, True, False, 0, 1, -1, 2**63, -(2**63), 10**400, 1.5, 1e308, 5e-324, gen.NAN, gen.INF, -gen.INF, "", "a",
            "1", "2025-01-01T00:00:00Z", "2025-13-45T99:99:99+99:99", "not a date", "é" * 3, [], [1, "a", None], [[]],
-           {}, {"a": {"b": None}}, {"attr": "x"}, 1e30, -1e30, "0001-01-01T00:00:00+23:59", 253402300800]
+           {}, {"a": {"b": None}}, {"attr": "x"}, 1e30, -1e30, "0001-01-01T00:00:00+23:59", 253402300800,
+           # "arbitrary text": strings that str.isdigit()/isnumeric()/float()/int() treat differently from plain digits
+           "\u00b2", "\u2460\u2461", "1\u00b3", "\u0661\u0662\u0663", "\uff11\uff12", "1_000", " 12 ", "+5", "1e5", "0x10",
+           "\u221e", "nan", "inf", "-inf", "Infinity", "NaN", "9" * 5000, "\u00a0", "\x00", "-0", "1.", ".5", "null", "true",
+           "1735689600", "1735689600.5", "\u0967\u0968", "12\u0660", "\u2160", "\u00bd"]
 
 ATTR_PATHS = ["context.a", "context.b", "subject.id", "subject.roles", "subject.attrs.x", "resource.id", "resource.type",
               "resource.attrs.k", "action", "context.a.b.c", "nokey", "context.", ""]
